@@ -17,13 +17,21 @@
     [cmd_dom] = the same for every clause, and edits do not introduce such
     white space; [0 <= tempo] for the schedule reading.
 
+    The printed steps: Model/StepsText.v [print_text] is the text printSteps
+    prints, byte for byte (durations as time.Duration.String prints them);
+    Model/StepsRead.v reads such a text back.  Times are integers in
+    nanoseconds everywhere.
+
     What is NOT proved here: index safety of the Go functions (the models use
     suffixes instead of cursors; a crash of the real code shows up in the
-    correspondence check only), and the text printed by printSteps (modelled
-    in Model/Compile.v [print_play] and compared on every case, without a
-    theorem). *)
+    correspondence check only).  Go's regexp is not modelled: the statements
+    about `edit` hold for every substitution function.  (Model/Regex.v is not
+    a model of it either: it is the oracle's own leftmost-first matcher, used
+    by the correspondence check to say what an edit with a pattern of its
+    subset must produce; see [c06_edit_leftmost_first_example].) *)
 From Shk Require Import Base.Prelude Model.Storyline Model.Compile Model.Denote
-     Proofs.StorylineProofs Proofs.StoryScriptProofs Proofs.CompileProofs.
+     Proofs.StorylineProofs Proofs.StoryScriptProofs Proofs.CompileProofs
+     Model.StepsText Model.StepsRead Proofs.StepsTextProofs Model.Regex.
 Open Scope Z_scope.
 
 (** validateStoryLine accepts exactly the well-formed clauses, and returns the
@@ -163,6 +171,54 @@ Theorem c06_no_panic_no_fuel : forall cs tempo cmds, Forall cmd_dom cmds ->
   match compile_script cs tempo cmds with Ok _ | Err _ => True | _ => False end.
 Proof. exact script_never_panics. Qed.
 
+(** * The printed steps (-p) *)
+
+(** A printed duration reads back as the same number of nanoseconds, for every
+    duration: the dump never blurs two different scene times (1.5ms, 2500us,
+    999999ns, 1h0m0.000000001s ...). *)
+Theorem c06_duration_text_exact : forall d, parse_dur (fmt_dur d) = Some d.
+Proof. exact parse_dur_fmt. Qed.
+
+(** printSteps does not crash on a play made of the two kinds of lines the
+    compiler produces, and its text can be read back: it shows, per act, the
+    act number and header, every scene that has lines with its number, the
+    time in force and the lines (actors, actions, `?` marks, moods), and the
+    time in force at the end of the act. *)
+Theorem c06_printed_steps_read_back : forall story p rep,
+  play_ok p -> play_clean p -> Forall no_nl story ->
+  exists text, print_text story p rep = Ok text
+               /\ read_events (decode_text text) = play_view 1 story p.
+Proof. exact printed_text_read_back. Qed.
+
+(** ... so two plays with the same printed steps have the same view. *)
+Theorem c06_printed_steps_injective : forall s1 p1 r1 s2 p2 r2,
+  play_ok p1 -> play_clean p1 -> Forall no_nl s1 ->
+  play_ok p2 -> play_clean p2 -> Forall no_nl s2 ->
+  print_text s1 p1 r1 = print_text s2 p2 r2 ->
+  play_view 1 s1 p1 = play_view 1 s2 p2.
+Proof. exact printed_text_determines_view. Qed.
+
+(** For compiled plays the view IS the denoted schedule (every group's events
+    at k * tempo, the act's end at ncols * tempo): two compiled plays that
+    print the same steps have the same acts, scene times, lines and moods, and
+    the same act headers.  Comparing printed text loses nothing the property
+    constrains. *)
+Theorem c06_printed_steps_determine_play :
+  forall sem1 tempo1 cols1 st1 r1 sem2 tempo2 cols2 st2 r2,
+  0 <= tempo1 -> 0 <= tempo2 ->
+  (forall c, spec_clean (sem1 c)) -> (forall c, spec_clean (sem2 c)) ->
+  Forall no_nl st1 -> Forall no_nl st2 ->
+  print_text st1 (flatten_play (denote_play sem1 tempo1 cols1)) r1
+  = print_text st2 (flatten_play (denote_play sem2 tempo2 cols2)) r2 ->
+  map act_events (denote_play sem1 tempo1 cols1) = map act_events (denote_play sem2 tempo2 cols2)
+  /\ headers st1 (List.length cols1) = headers st2 (List.length cols2).
+Proof. exact printed_steps_determine_compiled_play. Qed.
+
+Theorem c06_compiled_play_view : forall sem tempo cols, 0 <= tempo ->
+  let v := act_view 1 0 (flatten_act (denote_act sem tempo cols)) in
+  (strip (fst v), snd v) = act_events (denote_act sem tempo cols).
+Proof. exact compiled_act_view. Qed.
+
 (** * Non-vacuity *)
 Definition ex_sp : specs :=
   [ (x61, mkSpec [([x41], [[x70]; [x71; x3f]])] [x52] []);      (* a: A does p, q?; mood starts R *)
@@ -199,3 +255,38 @@ Example c06_refusals :
   /\ validate_storyline (defined ex_sp) [x61; x7a] = Err 14
   /\ do_edit (defined ex_sp) [[x61; x62]] (fun _ => [x61; x2b]) = Err 12.
 Proof. vm_compute. repeat split. Qed.
+
+(** The dump of the compile example, and reading it back. *)
+Example c06_print_example :
+  match print_text [[x61; x2b; x62; x2b; x63; x2e; x63]]
+               [[ mkScene 0 [mkLine None [mkStep true [x52] false]];
+                  mkScene 0 [mkLine (Some [x41]) [mkStep false [x70] false; mkStep false [x71] true];
+                             mkLine (Some [x42]) [mkStep false [x72] false]];
+                  mkScene 0 [mkLine None [mkStep true [x55] false]];
+                  mkScene 1500000 [mkLine None [mkStep true [x55] false]];
+                  mkScene 2250000 [] ]] 0 with
+  | Ok text =>
+      decode_text text =
+       [ PAct 1 (Some [x61; x2b; x62; x2b; x63; x2e; x63]);
+         PMood 1 [x52];
+         PDo 2 [x41] [x70] false; PDo 2 [x41] [x71] true; PMeanwhile 2; PDo 2 [x42] [x72] false;
+         PMood 3 [x55];
+         PWait 4 1500000; PMood 4 [x55];
+         PWait 5 2250000 ]
+  | _ => False
+  end
+  /\ fmt_dur 1500000 = [x31; x2e; x35; x6d; x73] /\ fmt_dur 2250000 = [x32; x2e; x32; x35; x6d; x73].
+Proof. vm_compute. repeat split. Qed.
+
+(** `edit` with alternatives that are prefixes of one another and a lazy
+    operator, under Perl / Go leftmost-first matching: `ab.b ba` edited by
+    s/a|ab/c/ and then s/ b.*?/ c/ is `cb.b cc` (leftmost-longest matching
+    would give `c.b c`). *)
+Example c06_edit_leftmost_first_example :
+  let a := Chr x61 in let b := Chr x62 in
+  let e1 := re_replace (Alt a (Cat a b)) [x63] in
+  let e2 := re_replace (Cat (Chr x20) (Cat b (Star false Any))) [x20; x63] in
+  let dfn := fun c => Byte.eqb c x61 || Byte.eqb c x62 || Byte.eqb c x63 in
+  obind (do_edit dfn [[x61; x62; x2e; x62]; [x62; x61]] e1) (fun sl => do_edit dfn sl e2)
+  = Ok [[x63; x62; x2e; x62]; [x63; x63]].
+Proof. vm_compute. reflexivity. Qed.
